@@ -273,7 +273,19 @@ class Interp:
 
     def load(self, path, n, st):
         if path in st.vars:
-            return st.vars[path]
+            v = st.vars[path]
+            # a path through '[]' names every element of a container at once: two loads may see
+            # different elements, so each load yields a fresh value of the same range and taint
+            # (otherwise result[i].x - result[i-1].x would evaluate to 0)
+            if '[]' in path and isinstance(v, VInt):
+                lo, hi = st.lo(v.lf), st.hi(v.lf)
+                r = type_range(n.get('type')) or type_range(n.get('dtype'))
+                if r is not None:
+                    lo = r[0] if lo is None else max(lo, r[0])
+                    hi = r[1] if hi is None else min(hi, r[1])
+                    s_ = st.fresh('elem@%s' % locstr(n), lo, hi, v.lf.has_wire())
+                    return VInt(LF.sym(s_))
+            return v
         t = n.get('dtype') or n.get('type') or ''
         r = type_range(n.get('type')) or type_range(n.get('dtype'))
         if r is not None:
@@ -308,6 +320,18 @@ class Interp:
             r = type_range(t.get('type')) or type_range(t.get('dtype'))
             if r is not None:
                 val = self.fit(val, r, st, t)
+        if '[]' in p and isinstance(val, VInt) and isinstance(st.vars.get(p), VInt):
+            old = st.vars[p]
+            lo1, hi1, lo2, hi2 = st.lo(old.lf), st.hi(old.lf), st.lo(val.lf), st.hi(val.lf)
+            if (lo1, hi1) != (lo2, hi2) or old.lf.has_wire() != val.lf.has_wire():
+                lo = None if lo1 is None or lo2 is None else min(lo1, lo2)
+                hi = None if hi1 is None or hi2 is None else max(hi1, hi2)
+                r_ = type_range(t.get('type')) or type_range(t.get('dtype'))
+                if r_ is not None:
+                    lo = r_[0] if lo is None else lo
+                    hi = r_[1] if hi is None else hi
+                s_ = st.fresh('join@%s' % locstr(t), lo, hi, old.lf.has_wire() or val.lf.has_wire())
+                val = VInt(LF.sym(s_))
         st.vars[p] = val
         if p in st.sizes and not isinstance(val, VObj):
             st.sizes.pop(p, None)
@@ -449,7 +473,7 @@ class Interp:
                     out.append((self.typed_unknown(n, s), s))
             return out
         if p in st.vars:
-            return [(st.vars[p], st)]
+            return [(self.load(p, n, st), st)]      # load(): element paths ('[]') yield a fresh value
         # pair.first / .second of a tuple value held in a variable
         bp = p[:-1]
         if bp in st.vars and isinstance(st.vars[bp], VTuple) and n.get('name') in ('first', 'second'):
